@@ -14,6 +14,7 @@ class Sess:
     def __init__(self, nstart, maxrt, est0, client=True):
         self.nstart, self.maxrt, self.est, self.open = nstart, maxrt, bool(est0), True
         self.client = client
+        self.mc_pending = False   # a delayed multicast response waits in the send queue
         self.act = 0
         self.dq = []          # (con, mid, tok, cnt)
         self.sq = []          # (con, mid, tok, cnt)
@@ -169,9 +170,15 @@ def gen_case(r, big=False, natural=False, errs=False):
                 cand.append((4, r.choice("AR"), r.choice(s.dq)[1] if s.dq and r.random() < 0.6
                              else r.randrange(1, 65536)))
             cand.append((1, "P", r.randrange(30000, 34000)))
+            if not s.client and s.est and not natural and not errs:
+                # multicast request from the peer / its delayed response goes out
+                cand.append((6, "Y", 0) if s.mc_pending else (3, "M", 0))
             if not natural:
                 cand.append((12 if not s.est else 1, "U", 0))
-                cand.append((1.5, "F", r.choice([1, 1, 1, 4, 4, 0, 2, 3])))
+                if not s.mc_pending:
+                    # (a disconnect would report the queued multicast response - not a message of
+                    #  the application - as "the first one")
+                    cand.append((1.5, "F", r.choice([1, 1, 1, 4, 4, 0, 2, 3])))
             else:
                 cand.append((25, "W", r.choice([500, 1000, 1900, 2000, 2500, 3000, 3100, 4000, 6200,
                                                 9000])))
@@ -205,6 +212,15 @@ def gen_case(r, big=False, natural=False, errs=False):
         elif kind == "F":
             ops.append("F%d,%d" % (k, arg))
             s.fail(arg)
+            if arg != 4:
+                s.mc_pending = False
+        elif kind == "M":
+            ops.append("M%d" % k)
+            s.mc_pending = True
+        elif kind == "Y":
+            ops.append("Y%d" % k)
+            s.mc_pending = False
+            s.up()
         elif kind == "W":
             ops.append("W%d" % arg)
             # the simulator cannot tell which timers fire; its in-flight set becomes a guess
@@ -269,4 +285,39 @@ def enum_cases(depth, nstart, maxrt, est0, max_sub=3, client=True):
             ops.pop()
 
     for ops in rec([], 0, depth):
+        yield prefix, ops
+
+
+def enum_cases2(depth, cfgs, max_sub=2):
+    """Exhaustive small scope with two sessions on one context (shared send queue): every history
+    of exactly `depth` events; both sessions use the SAME message ids 1,2 (tokens differ)."""
+    prefix = ["ns", "1", "2"] + ["%d,%d,%d,1%s" % (n, rt, 1 if e0 else 0, "" if cl else ",s")
+                                 for (n, rt, e0, cl) in cfgs]
+
+    def rec(ops, nsub, dead, left):
+        if left == 0:
+            yield list(ops)
+            return
+        for k in (0, 1):
+            alpha = []
+            if nsub[k] < max_sub:
+                alpha += ["S%d,c,%d,%d" % (k, nsub[k] + 1, 10001 + 1000 * k + nsub[k]),
+                          "S%d,n,%d,%d" % (k, nsub[k] + 1, 10001 + 1000 * k + nsub[k])]
+            if not dead[k]:
+                for m in range(1, nsub[k] + 1):
+                    alpha += ["A%d,%d" % (k, m), "R%d,%d" % (k, m), "T%d,%d" % (k, m),
+                              "P%d,%d" % (k, 10000 + 1000 * k + m)]
+                alpha += ["U%d" % k, "F%d,1" % k]
+            for a in alpha:
+                ops.append(a)
+                ns2 = list(nsub)
+                d2 = list(dead)
+                if a[0] == "S":
+                    ns2[k] += 1
+                if a[0] == "F" and cfgs[k][3]:
+                    d2[k] = True
+                yield from rec(ops, ns2, d2, left - 1)
+                ops.pop()
+
+    for ops in rec([], [0, 0], [False, False], depth):
         yield prefix, ops
